@@ -1317,7 +1317,9 @@ impl<'a, B: BitmapSlice> From<VolatileSlice<'a, B>> for VolatileArrayRef<'a, u8,
 // cause test_non_atomic_access to fail.
 fn alignment(addr: usize) -> usize {
     // Rust is silly and does not let me write addr & -addr.
-    addr & (!addr + 1)
+    // (`wrapping_neg`, not `!addr + 1`: the latter overflows for a null address, which is what an
+    // empty access at offset 0 of a region that is mapped on demand carries.)
+    addr & addr.wrapping_neg()
 }
 
 pub(crate) mod copy_slice_impl {
